@@ -938,6 +938,8 @@ class Interp:
         o = p.obj
         if not is_conc(p.off):
             return self._load_symoff(o, p.off, t, size, lay)
+        if getattr(o, "sym_array", None) is not None and isinstance(t, ir.IntTy) and p.off not in o.cells:
+            return self._load_symoff(o, p.off, t, size, lay)
         if isinstance(t, ir.PtrTy):
             c = o.cells.get(p.off)
             if c is None:
@@ -960,6 +962,15 @@ class Interp:
         raise ExecError("unsupported", "load of type %r" % (t,))
 
     def _load_symoff(self, o, off, t, size, lay):
+        arr = getattr(o, "sym_array", None)
+        if arr is not None and isinstance(t, ir.IntTy):
+            # object modelled as a z3 array of bytes (index: 64-bit byte offset): used for digit strings read at a symbolic index
+            offbv = as_bv(off, 64)
+            bs = [z3.Select(arr, offbv + k) for k in range(size)]
+            v = z3.Concat(*reversed(bs)) if size > 1 else bs[0]
+            if t.bits < size * 8:
+                v = z3.Extract(t.bits - 1, 0, v)
+            return simp(v)
         if not isinstance(t, ir.IntTy) or not is_conc(o.size):
             raise ExecError("unsupported", "symbolic-offset load of %r from %s" % (t, o.name))
         offbv = as_bv(off, 64)
